@@ -562,6 +562,7 @@ class Frac:
 
     def __pow__(self, n):
         if isinstance(n, Frac) and n.is_const(): n = n.cval()
+        if isinstance(n, float): n = toQ(n)
         if isinstance(n, float) and n == int(n): n = int(n)
         if isinstance(n, Q) and n.denominator == 1: n = n.numerator
         if isinstance(n, int):
